@@ -43,8 +43,9 @@ class FaultInterp {
   uint64_t known_skipped;
   uint64_t pairs, scenarios;
   std::string last_desc;
+  FILE *transcript;
 
-  explicit FaultInterp(const char *name) : cfgname(name), mask_known(true), known_skipped(0), pairs(0), scenarios(0) {}
+  explicit FaultInterp(const char *name) : cfgname(name), mask_known(true), known_skipped(0), pairs(0), scenarios(0), transcript(0) {}
 
   static const char *op_name(int op) {
     static const char *n[] = {"push_back(const&)", "push_back(&&)", "emplace_back", "insert(pos,const&)", "insert(pos,&&)", "emplace(pos)",
@@ -418,6 +419,7 @@ class FaultInterp {
     return ctx().failed;
   }
 
+  bool nontrivial() const { return has_feature(FF_AFTER_PROGRESS); }
   // tape entry point: one op = one scenario
   bool run(const Op *ops, size_t n) {
     case_begin();
